@@ -856,6 +856,23 @@ func c08Gen(r *Rng, n int, tier string) []Case {
 			}
 		}
 	}
+	// the integer folds check their operands left to right (/repo 2e0440e): a zero divisor before / after an operand
+	// that is not an integer, constants only and mixed with groups, for the dividing and the other folds
+	for _, fn := range []string{"divi", "modi", "sumi", "multi", "maxi"} {
+		for _, pat := range [][]string{{"8", "0", "1.5"}, {"8", "1.5", "0"}, {"8", "2", "0", "abc"}, {"8", "2", "abc", "0"}, {"1.5", "0", "2"},
+			{"8", "0", ""}, {"-4294967296", "0", "1.5", "Inf", "-2147483648"}, {"8", "Inf", "0", "2"}} {
+			for mode := 0; mode < 4; mode++ { // all constants | all groups | non-integers constant, rest groups | integers constant, rest groups
+				args := make([]c08Arg, len(pat))
+				for i, v := range pat {
+					_, isInt := atoiOk(v)
+					cst := mode == 0 || (mode == 2 && !isInt) || (mode == 3 && isInt)
+					args[i] = c08Arg{Const: cst, Val: hx(v), Text: readable(v)}
+				}
+				in, tags, heavy := mkCall("call", fn, args, false, true)
+				add(in, append(tags, "ifold-order"), heavy, true)
+			}
+		}
+	}
 	if loadFile != "" {
 		defer os.Remove(loadFile)
 	}
